@@ -307,7 +307,7 @@ func c08Codec() *explore.Scenario {
 			// ErrShortBuffer, never asks for Len() first): same bytes, and Len() afterwards agrees
 			{
 				e5 := v.Mk()
-				big5 := make([]byte, n+64)
+				big5 := make([]byte, n+4096) // (a fresh GREASE-ECH instance may draw a longer payload than the first one did)
 				m5, err5 := e5.Read(big5)
 				n5 := e5.Len()
 				if m5 != n5 || (err5 != io.EOF && err5 != nil) {
